@@ -1,13 +1,12 @@
 #!/usr/bin/env bash
-# Offline build of every engine from the files on disk (run once after a fresh restore).
+# Offline build of every registered engine from the files on disk (run once after a fresh restore).
 set -eu
 ROOT="$(cd "$(dirname "${BASH_SOURCE[0]}")" && pwd)"
 export CARGO_NET_OFFLINE=true
 TARGET="${VERIF_TARGET:-/verif/target}"
 mkdir -p "$TARGET" "$ROOT/evidence" "$ROOT/replays"
-for dir in "$ROOT"/sim-*/; do
-  key="$(basename "$dir")"
+for key in $(jq -r '.engines[].path' "$ROOT/MANIFEST.json"); do
   echo "== building $key"
-  (cd "$dir" && cargo build --profile sim --target-dir "$TARGET/$key")
+  (cd "$ROOT/$key" && cargo build --profile sim --target-dir "$TARGET/$key")
 done
 echo "setup done"
